@@ -230,7 +230,7 @@ Theorem c17_dns_close_source_facts :
   Gen.CloseShape.close_connection_closes_in_queue = true /\
   Gen.CloseShape.user_close_is = "u.closer(u)"%string /\ Gen.CloseShape.user_closer_is = "s.closeConnection"%string /\
   Gen.CloseShape.sweep_closes_in_queue = true /\
-  Gen.CloseShape.set_options_closed_branch = "v.Closed != nil && *v.Closed == true -> s.closeConnection(user)"%string /\
+  Gen.CloseShape.set_options_closed_branch = "v.Closed != nil && *v.Closed -> s.closeConnection(user)"%string /\
   Gen.CloseShape.validate_returns = "u,commands.BadConn;nil,commands.BadUser;user,commands.BadIp;user,nil"%string /\
   Gen.CloseShape.on_message_retired_answer = "user != nil && userErr == commands.BadConn -> commands.BadConn"%string /\
   Gen.CloseShape.sar_attempts = 5%N /\
